@@ -147,6 +147,8 @@ def macro_source(params, defaults, ck, cv, c):
             sig.append(f"{p}={d[1]}")
         elif d[0] == "prev":
             sig.append(f"{p}=({params[i - 1]}|default(0)) + 100")
+        elif d[0] == "self":
+            sig.append(f"{p}={p}")          # names the parameter itself: not bound yet when the default is evaluated
         else:
             sig.append(f"{p}=o")
     body = ",".join("{{ %s|default('U') }}" % p for p in params if p != "caller")
@@ -177,6 +179,8 @@ def expected(params, defaults, ck, cv, c, spec):
             elif d[0] == "prev":
                 pv = vals.get(params[i - 1])
                 v = (pv if isinstance(pv, int) else 0) + 100
+            elif d[0] == "self":
+                v = None                     # undefined
             else:
                 v = 55
         else:
@@ -224,7 +228,9 @@ def run_e2e(ctx, res, jinja2):
         defaults = [None] * len(params)
         nd = rng.randrange(0, min(3, len(params)) + 1)
         for i in range(len(params) - nd, len(params)):
-            defaults[i] = rng.choice([("const", 7), ("outer",)] + ([("prev",)] if i > 0 and params[i - 1] != "caller" else []))
+            defaults[i] = rng.choice([("const", 7), ("outer",), ("self",)] + ([("prev",)] if i > 0 and params[i - 1] != "caller" else []))
+            if defaults[i] == ("self",) and params[i] == "caller":
+                defaults[i] = ("const", 7)
         if explicit and defaults[-1] is None:
             defaults[-1] = ("const", 0) if c else defaults[-1]
             if defaults[-1] is None and c:
@@ -298,7 +304,7 @@ def run_e2e(ctx, res, jinja2):
         if len(samples) < 2:
             samples.append({"source": src, "shape": shape, "args": args, "kw": kw, "expected": exp})
     return {"renders": renders, "distinct": len(distinct), "samples": samples,
-            "rule": (f"{n} random macros (0-4 parameters, 0-3 defaults that are constants / earlier parameter + 100 / "
+            "rule": (f"{n} random macros (0-4 parameters, 0-3 defaults that are constants / earlier parameter + 100 / the parameter itself / "
                      "an outer variable, implicit or explicit caller, kwargs, varargs) called with 0-5 positional and "
                      "0-3 keyword arguments (known, unknown, duplicate-of-filled, Python keywords as names) as {{ m(..) }}, m(*pos, **kw), "
                      "mixed written-out / *rest / **rest spellings, "
